@@ -24,8 +24,8 @@ def run(c):
     classes = collections.Counter()
     variants = [("gate", 2, 4, False), ("gate", 4, 6, False), ("gate", 2, 0, True), ("free", 4, 6, False), ("free", 2, 0, True)]
     for vi, (sched, slot, keys, empty) in enumerate(variants):
-        conc = dict(workload="disjoint", txns=2 + (vi % 2), keys=keys, slot=slot, sched=sched, max_step=8, empty=empty)
-        traces, _ = _conc.run_conc(c, binp, "d%d%s" % (vi, sched), c.pick(8, 80), conc)
+        conc = dict(workload="disjoint", txns=(2 if empty else 2 + (vi % 2)), keys=keys, slot=slot, sched=sched, max_step=8, empty=empty)
+        traces, _ = _conc.run_conc(c, binp, "d%d%s" % (vi, sched), c.pick(6, 60), conc, timeout=3000)
         hists, outs = [], []
         for n, h, evs in traces:
             hh, out = conclib.history_of(evs, require_all=True)
